@@ -164,6 +164,25 @@ def edits(schema, doc, rng=None, max_per_rule=None):
                      {"where": where, "depth": depth, "parent_kind": schema.kind(ptype), "in_inline": in_inline,
                       "in_fragment": where.startswith("frag:"), "form": "spread", "cond_kind": schema.kind(cand)})
                 break
+    # E6 with an EXISTING fragment: it stays validly spread where it was, and is spread once more in a scope it can never apply to
+    used = {}
+    for container, i, it, ptype, where, depth, in_inline in pos:
+        if it[0] == "spread" and it[1] not in used:
+            used[it[1]] = where
+    fm = frag_map(doc)
+    seen_scopes2 = set()
+    for container, i, it, ptype, where, depth, in_inline in pos:
+        if id(container) in seen_scopes2:
+            continue
+        seen_scopes2.add(id(container))
+        for fn in sorted(used):
+            if fn in fm and not schema.can_apply(fm[fn]["on"], ptype) and where != "frag:" + fn:
+                for at_end in (True, False):
+                    d2 = edited(container, 0, (lambda c, k, fn=fn: c.append(["spread", fn])) if at_end else (lambda c, k, fn=fn: c.insert(0, ["spread", fn])))
+                    emit("E6", "second-spread of %s (on %s) under %s@%s" % (fn, fm[fn]["on"], ptype, where), d2,
+                         {"where": where, "depth": depth, "parent_kind": schema.kind(ptype), "in_inline": in_inline, "in_fragment": where.startswith("frag:"),
+                          "form": "respread", "cond_kind": schema.kind(fm[fn]["on"])})
+                break
     # operation-level rules
     for oi, op in enumerate(doc["operations"]):
         if op["kind"] == "subscription":
